@@ -49,7 +49,7 @@ Inductive pkind :=
 | PK_Template | PK_TemplateMulti | PK_TemplateStmt
 | PK_ListSyntax | PK_InvalidIndex | PK_AssignTarget | PK_AssignOp | PK_AssignValue
 | PK_InvalidCall | PK_InvalidPipe | PK_InvalidIn | PK_ExpectedIn | PK_InvalidNotIn
-| PK_RangeBrace | PK_InvalidRange | PK_SetSyntax | PK_InvalidAttr | PK_ExpectedIdentAfter
+| PK_RangeBrace | PK_InvalidRange | PK_SetSyntax | PK_MapSyntax | PK_InvalidAttr | PK_ExpectedIdentAfter
 | PK_SendChannel | PK_SendValue | PK_InvalidReceive | PK_InvalidReturn | PK_InvalidCase | PK_InvalidElseIf.
 
 Inductive perr := PSyntax (e : lexerr) | PParse (k : pkind).
@@ -697,7 +697,12 @@ Section Step.
                        do ok3 <- next_token;
                        if negb ok3 then ret None else
                        do x <- parse1;
-                       more f (acc ++ [opt_or_nil x])
+                       do ateof <- cur_is EOF;
+                       match x with
+                       | None => if ateof then more f (acc ++ [opt_or_nil x])
+                                 else (do t <- cur_tok; tok_err t PK_ListSyntax ;; ret None)
+                       | Some _ => more f (acc ++ [opt_or_nil x])
+                       end
                    end) fu [first];
         match r with
         | None => ret None
@@ -725,10 +730,14 @@ Section Step.
     if prb then (do _ <- next_token; ret (Some (NMap []))) else
     do _ <- next_token;
     do k1 <- parse_expression LOWEST;
+    do eof1 <- cur_is EOF;
+    if (match k1 with None => negb eof1 | Some _ => false end) then (do t <- cur_tok; tok_err t PK_SetSyntax ;; ret None) else
     do pc <- peek_is COLON;
     if pc then
       do _ <- next_token; do _ <- next_token;
       do v1 <- parse_expression LOWEST;
+      do eof2 <- cur_is EOF;
+      if (match v1 with None => negb eof2 | Some _ => false end) then (do t <- cur_tok; tok_err t PK_MapSyntax ;; ret None) else
       do r <- (fix more (fuel : nat) (acc : list (node * node)) : P (option (list (node * node))) :=
                  match fuel with
                  | O => ret (Some acc)
@@ -784,6 +793,8 @@ Section Step.
                        do ok1 <- next_token;
                        if negb ok1 then ret None else
                        do k <- parse_expression LOWEST;
+                       do eof3 <- cur_is EOF;
+                       if (match k with None => negb eof3 | Some _ => false end) then (do t <- cur_tok; tok_err t PK_SetSyntax ;; ret None) else
                        let acc' := acc ++ [opt_or_nil k] in
                        do pc2 <- peek_is COMMA;
                        if negb pc2 then ret (Some acc') else
@@ -1118,22 +1129,30 @@ Section Step.
     do first <- (if negb pc then
                    do _ <- next_token;
                    do e <- parse_expression LOWEST;
+                   match e with
+                   | None => do t <- cur_tok; tok_err t PK_InvalidIndex ;; ret (inl None)
+                   | Some _ =>
                    do prb <- peek_is RBRACKET;
-                   if prb then (do _ <- next_token; ret (inl (NIndex lft (opt_or_nil e))))
+                   if prb then (do _ <- next_token; ret (inl (Some (NIndex lft (opt_or_nil e)))))
                    else ret (inr e)
+                   end
                  else ret (inr None));
     match first with
-    | inl n => ret (Some n)
+    | inl n => ret n
     | inr first_index =>
         do pc2 <- peek_is COLON;
         do second <- (if pc2 then
                         do _ <- next_token;
                         do prb <- peek_is RBRACKET;
-                        if prb then (do _ <- next_token; ret (inl (NSlice lft first_index None)))
-                        else (do _ <- next_token; do e <- parse_expression LOWEST; ret (inr e))
+                        if prb then (do _ <- next_token; ret (inl (Some (NSlice lft first_index None))))
+                        else (do _ <- next_token; do e <- parse_expression LOWEST;
+                              match e with
+                              | None => do t <- cur_tok; tok_err t PK_InvalidIndex ;; ret (inl None)
+                              | Some _ => ret (inr e)
+                              end)
                       else ret (inr None));
         match second with
-        | inl n => ret (Some n)
+        | inl n => ret n
         | inr second_index =>
             do ok <- expect_peek RBRACKET;
             if ok then ret (Some (NSlice lft first_index second_index)) else ret None
